@@ -147,10 +147,18 @@ def machine_run(prop, streams=("random",)):
             # the largest limit the id type allows, with guards that redirect forever
             cfgs = cfgs + [G.Config(2, L=255, cap=2, head=False, payload="none", ctx="ref"),
                            G.Config(3, L=255, cap=1, head=True, manual=True, payload="none", ctx="ref")]
+        # C17 (behaviour must not depend on anything but the history): the same configurations also under other
+        # compilers / optimisation levels — an uninitialised read typically shows up as a difference between them
+        toolchains = [("g++", "-O1")]
+        if prop == "C17" and (ctx.thorough or ctx.broken):
+            toolchains += [("clang++-14", "-O2"), ("g++", "-O2"), ("clang++-14", "-O0")]
+        jobs = [(c, cxx, opt) for (cxx, opt) in toolchains for c in (cfgs if (cxx, opt) == toolchains[0] else cfgs[:5])]
         with ThreadPoolExecutor(max_workers=C.NCPU) as ex:
-            built = list(ex.map(MM.build, cfgs))
+            built = list(ex.map(lambda j: MM.build(j[0], cxx=j[1], opt=j[2]), jobs))
+        ctx.extra["toolchains"] = ["%s %s" % t for t in toolchains]
+        cfgs_run = [j[0] for j in jobs]
         ncase = 400 if ctx.thorough else 90
-        for cfg, (exe, logtxt) in zip(cfgs, built):
+        for cfg, (exe, logtxt) in zip(cfgs_run, built):
             if exe is None:
                 ctx.failures.append({"what": "machine harness does not compile against the current headers for " + cfg.cfg_line(),
                                      "log": "\n".join([l for l in logtxt.split("\n") if "error" in l][:12])})
